@@ -243,7 +243,7 @@ let run_mp size olen ops =
     | Ok (((out, w1), _), ev) -> heap_events ev; w := w1; Some (out, ev)
     | r -> dead := true; obs := err_name r :: !obs; None in
   let show_out = function
-    | POut (p, reg) -> if reg then registered := true; "p" ^ hex_of_n p ^ (if reg then "a" else "")
+    | POut (p, reg) -> if reg then registered := true; "p" ^ hex_of_n p ^ (if reg then "!" else "")
     | PUnit -> "u" in
   List.iter (fun tok ->
     if !dead then () else
@@ -260,7 +260,7 @@ let run_mp size olen ops =
         if not !dead then
           match step PMalloc with
           | Some (POut (p, reg), ev) ->
-            outs := (hex_of_n p ^ (if reg then (registered := true; "a") else "")) :: !outs;
+            outs := (hex_of_n p ^ (if reg then (registered := true; "!") else "")) :: !outs;
             evs := !evs @ ev;
             if p <> N0 then
               (match step (PFree (n_of_int (List.length (!w).w_held - 1))) with
@@ -287,7 +287,7 @@ let run_mp size olen ops =
 let spec_mp ops impl_obs =
   let toks = Array.of_list (String.split_on_char ';' impl_obs) in
   let sops = ref [] and outs = ref [] and held = ref 0 and ok = ref true in
-  let strip_a s = if String.length s > 0 && s.[String.length s - 1] = 'a' then String.sub s 0 (String.length s - 1) else s in
+  let strip_a s = if String.length s > 0 && s.[String.length s - 1] = '!' then String.sub s 0 (String.length s - 1) else s in
   let push op out = sops := op :: !sops; outs := out :: !outs in
   (try
     List.iteri (fun i tok ->
